@@ -309,11 +309,22 @@ def _run_histories(report, tier, maxver, maxruns, limit, faults, want_fault=None
         results = list(ex.map(one, chosen))
     traces = []
     index = []
+    skipped = 0
     for hi, runrecs in enumerate(results):
         for ri, rr in enumerate(runrecs):
             if 'trace' in rr:
+                pre = rr['pre']
+                # a run that STARTS from a state only a named deviation can leave
+                # behind (tables ahead of the stored signature) is outside the model
+                if any(pre['tab'][a] != pre['stored'][a] or pre.get('g2', {}).get(a)
+                       or pre['part'][a] for a in pre['tab']):
+                    skipped += 1
+                    continue
                 index.append((hi, ri))
                 traces.append(rr['trace'])
+    if skipped:
+        report.notes.append('%d runs start from a deviation-only state (tables ahead of the stored '
+                            'signature) and were judged by the oracles only, not trace-validated' % skipped)
     verdicts = runs.validate_traces(report, traces, maxver)
     for (hi, ri), v in zip(index, verdicts):
         results[hi][ri]['verdict'] = v
@@ -497,8 +508,21 @@ def _judge_failed_run(report, rr, label, ri, histories, where):
         report.fail({'class': 'fault-swallowed'}, detail)
         return
     if post['tab'][a] != pre['tab'][a] or post['tab'][a] == -2:
+        # what an earlier, completed unit of the same run created (e.g. the new
+        # models of this app) is not part of the failing evolution: judge the
+        # tables that existed before the run
+        pre_db, post_db = rr.get('pre_db'), rr.get('db')
+        prefix = histories[a].app + '_'
+        own_changed = True
+        if pre_db is not None and post_db is not None:
+            before = {t: v for t, v in pre_db['tables'].items() if t.startswith(prefix)}
+            after = {t: v for t, v in post_db['tables'].items() if t in before}
+            own_changed = before != after
+        created_earlier = any(e['ev'] == 'created_models' for e in rr.get('events', []))
         report.fail({'class': 'failed-evolution-left-changes',
-                     'partial': post['tab'][a] == -2, 'phase': fault['phase']}, detail)
+                     'partial': post['tab'][a] == -2, 'phase': fault['phase'],
+                     'preexisting_tables_changed': own_changed,
+                     'earlier_unit_created_models': created_earlier}, detail)
     # Evolver.__init__ installs the baseline Version row on an empty database
     if post['stored'] != pre['stored'] or post['nver'] != max(pre['nver'], 1):
         report.fail({'class': 'failed-run-changed-signature'}, detail)
@@ -525,7 +549,7 @@ def _judge_retry(report, rr, prev, label, ri, histories, oracles):
     detail = {'history': label, 'run': ri, 'code': code, 'pre': rr['pre'], 'post': post,
               'error': s['error_msg']}
     # tables an earlier unit of the failed run committed, with no stored signature
-    lag = sorted(a for a in code if code[a] >= 0 and rr['pre']['tab'][a] >= 0
+    lag = sorted(a for a in code if code[a] >= 0 and rr['pre']['tab'][a] != -1
                  and rr['pre']['stored'][a] != rr['pre']['tab'][a])
     fp_extra = {'earlier_unit_committed': bool(lag)}
     if s['outcome'] != 'ok':
@@ -575,6 +599,8 @@ def c07(tier, replay=None):
     _trace_rejections(report, 'C07', chosen, results)
     # Part B: every concrete statement index of single-unit upgrades
     n_b = _fault_every_statement(report, tier, nontrivial)
+    n_c, fired_c = _c07_rich_family(report, tier, nontrivial)
+    report.notes.append('rich family: %d generated evolutions, %d faults fired' % (n_c, fired_c))
     report.coverage['distinct_nontrivial'] = len(nontrivial)
     report.coverage['rule'] = (
         'Part A: TLC explores Evolver.tla with a fault at every abstract statement of every unit '
@@ -711,6 +737,8 @@ def _exec_with(runs, hist, histories, oracles, project_cls, fault_queue):
                 'writes': [e['sql'][:80] for e in res['events'] if e['ev'] in ('stmt', 'book')],
             }
             rec['events'] = res['events']
+            rec['db'] = res['post']['default']['db']
+            rec['pre_db'] = out[-1].get('db') if out else None
             out.append(rec)
             state = post
     finally:
@@ -896,7 +924,9 @@ def c08(tier, replay=None):
             fresh_apps = set()
             for e in evs:
                 if e['ev'] == 'prepared':
-                    fresh_apps = set(e.get('create', []))
+                    rap = {h.app: a for a, h in histories.items()}
+                    fresh_apps = set(x for x in e.get('create', [])
+                                     if x in rap and pre['stored'][rap[x]] == -1)
             for e in evs:
                 if e['ev'] == 'applied_evolution':
                     for lab in e['labels']:
@@ -1188,3 +1218,81 @@ def _c17_every_statement(report, tier):
                                            'failing_sql': fired['sql'][:160],
                                            'kind': fired.get('kind')}, 'every-statement')
     return count, len(jobs)
+
+
+def _c07_rich_family(report, tier, nontrivial):
+    """C07 over generated single-evolution upgrades of models with relations:
+    TLC enumerates the valid sequences (Optimizer.tla, start signatures 2 and 5,
+    alphabet 6), each becomes one stored evolution of a real project; a fault
+    is injected at EVERY statement of the upgrade."""
+    import random
+    from concurrent.futures import ThreadPoolExecutor
+    from .common import seed
+    from .engines import runs
+    from .tlc import run_tlc, require_ok
+    from .absmodel import norm_mutation, short
+    rng = random.Random(seed() * 104729 + 3)
+    recs = []
+    for maxlen, start, alpha in ([(2, 5, 6), (2, 2, 6)] if tier == 'quick' else [(3, 5, 6), (3, 2, 6), (2, 1, 1)]):
+        cfg = _optimizer_cfg(maxlen, start, alpha, MERGEABLE_DOC)
+        res = require_ok(run_tlc('Optimizer', cfg, workers=16, timeout=3000),
+                         'Optimizer.tla (rich family) start=%d alpha=%d' % (start, alpha))
+        report.add_tlc('Optimizer (rich family for C07) len<=%d start=%d alpha=%d'
+                       % (maxlen, start, alpha), res.stats())
+        start_sig = _start_sig(start)
+        for r in res.records:
+            # sequences the pipeline is known to handle (no predicted defect, no hazard)
+            if r['seq'] and not r['viol'] and not r['hazards'] and r['twoOk']:
+                recs.append((r, start_sig))
+    rng.shuffle(recs)
+    # prefer sequences that touch two models
+    recs.sort(key=lambda it: -len(set(m['m'] for m in it[0]['seq'])))
+    chosen = recs[:24 if tier == 'quick' else 300]
+
+    def one(item):
+        try:
+            return runs.execute_upgrade_with_faults(item[0], item[1],
+                                                    max_k=6 if tier == 'quick' else None)
+        except Exception:
+            import traceback
+            return {'harness_error': traceback.format_exc(limit=6)}
+    with ThreadPoolExecutor(12) as ex:
+        outs = list(ex.map(one, chosen))
+    fired = 0
+    for (rec, start_sig), out in zip(chosen, outs):
+        label = [short(norm_mutation(m)) for m in rec['seq']]
+        if out.get('harness_error') or out.get('setup_error'):
+            report.notes.append('rich family setup problem: %s' % (out.get('harness_error') or out.get('setup_error')))
+            continue
+        if out.get('clean', {}).get('outcome') != 'ok':
+            report.notes.append('rich family: uninterrupted upgrade failed for %s: %s'
+                                % (label, out.get('clean', {}).get('error')))
+            continue
+        for r in out['runs']:
+            report.coverage['evaluations'] += 1
+            if not r['fired']:
+                continue
+            fired += 1
+            nontrivial.add(('rich', json_key(rec['seq'], rec['start']), r['k']))
+            detail = {'evolution': label, 'start': rec['start'], 'k': r['k'], 'of': r['n'],
+                      'failing_sql': r['fired']['sql'][:200], 'error': r['error_msg'],
+                      'retry_error': r['retry_error']}
+            if r['outcome'] == 'ok':
+                report.fail({'class': 'fault-swallowed', 'family': 'rich'}, detail)
+                continue
+            if not r['unchanged']:
+                report.fail({'class': 'failed-evolution-left-changes', 'family': 'rich',
+                             'schema_changed': not r['schema_unchanged'],
+                             'bookkeeping_changed': not r['book_unchanged']}, detail)
+            if r['error_type'] != 'EvolutionExecutionError':
+                report.fail({'class': 'wrong-error-type', 'type': r['error_type'],
+                             'family': 'rich'}, detail)
+            elif not r['last_sql'] or r['last_sql'][0] != r['fired']['sql']:
+                report.fail({'class': 'error-does-not-name-statement', 'family': 'rich'},
+                            dict(detail, last_sql=r['last_sql']))
+            if not r['retry_equals_clean']:
+                report.fail({'class': 'retry-differs-from-uninterrupted', 'family': 'rich',
+                             'retry_outcome': r['retry_outcome'],
+                             'failed_run_left_changes': not r['unchanged']}, detail)
+            report.coverage['traces_validated_against_impl'] += 1
+    return len(chosen), fired
